@@ -118,6 +118,36 @@ def run_witness(k):
         return None, str(ex)
 
 
+NOT_WITNESSES = {'w_edge_probe', 'w_findroot_accuracy'}      # a probe of excluded requests; the witness of the recorded known finding
+
+
+def drivers_of(pid):
+    """witness drivers written for a property: the first line of replay/w_*.cpp names the properties it speaks about"""
+    out = []
+    d = os.path.join(ROOT, 'replay')
+    for fn in sorted(os.listdir(d)):
+        if not (fn.startswith('w_') and fn.endswith('.cpp')) or fn[:-4] in NOT_WITNESSES: continue
+        first = open(os.path.join(d, fn)).readline()
+        m = re.match(r'^//\s*((?:C\d\d\s*/?\s*)+):', first)
+        if m and pid in re.findall(r'C\d\d', m.group(1)): out.append(fn[:-4])
+    return out
+
+
+def run_witnesses(pid):
+    """thorough tier: every witness driver of the property is run on the real code (ASan + UBSan build of the working tree).
+    Testing, not proof: a driver that observes a violation of the property statement is a failing input."""
+    res = []
+    for dname in drivers_of(pid):
+        try:
+            ok, text = run_driver(dname, timeout=600)
+        except Exception as ex:
+            ok, text = None, 'driver error: %s' % ex
+        viol = [l for l in (text or '').split('\n') if 'VIOLATES' in l]
+        res.append({'driver': 'replay/%s.cpp' % dname, 'reproduced': ok, 'observations': len([l for l in (text or '').split('\n') if l.startswith('OBSERVED')]),
+                    'violating_observations': viol[:10], 'tail': (text or '')[-600:] if ok is not False else ''})
+    return res
+
+
 if __name__ == '__main__':
     ok, text = run_driver(sys.argv[1], sys.argv[2:])
     print(text); print('reproduced =', ok)
